@@ -14,6 +14,7 @@ import (
 	"fmt"
 	"os"
 	"path/filepath"
+	"sort"
 	"strings"
 	"sync"
 	"time"
@@ -45,6 +46,7 @@ type dpol struct {
 }
 
 type dispatchState struct {
+	watch    map[string]bool // header names a remedy was explicitly told to set: reported when the gateway sets them
 	accounts map[string]any
 	pols   []dpol
 	data   *config.PoliciesData
@@ -56,6 +58,7 @@ type dispatchState struct {
 func (d *dispatchState) addPol(w []string) string {
 	if d.accounts == nil {
 		d.accounts = map[string]any{}
+		d.watch = map[string]bool{}
 	}
 	scope, _ := proto.KV(w, "scope")
 	name, ok := proto.KV(w, "name")
@@ -112,16 +115,43 @@ func (d *dispatchState) addPol(w []string) string {
 			auth = map[string]any{"o_auth": map[string]any{"tokens": []any{
 				map[string]any{"name": "client_id", "value": "abc"}, map[string]any{"name": "client_secret", "value": "def"}}}}
 		case "apikey":
-			auth = map[string]any{"api_key": map[string]any{"tokens": []any{map[string]any{"name": "x-api-key", "value": "k1"}}}}
+			hname, hval := "x-api-key", "k1"
+			if hn, ok := proto.KV(w, "hname"); ok {
+				hv, ok2 := proto.KV(w, "hvalue")
+				if !ok2 {
+					panic("harness: apikey needs hvalue")
+				}
+				hname, hval = proto.Dec(hn), proto.Dec(hv)
+				d.watch[hname] = true
+			}
+			auth = map[string]any{"api_key": map[string]any{"tokens": []any{map[string]any{"name": hname, "value": hval}}}}
 		default:
 			auth = map[string]any{"basic": map[string]any{"username": "u", "password": "p"}}
 		}
 		d.accounts[acc] = map[string]any{"authentication": auth}
 		cfg = map[string]any{"authentication": map[string]any{"account": acc}}
 	case "acct":
-		acc := fmt.Sprintf("acc%d", len(d.pols))
-		d.accounts[acc] = map[string]any{"tokens": []any{map[string]any{"header": map[string]any{"name": "x-acct-token", "value": "t1"}}}}
-		cfg = map[string]any{"account_orchestration": map[string]any{"round_robin": []any{acc}}}
+		// account_orchestration: round robin over one account per value of `hvals`, each with the token header
+		// `hname` (default: one account, x-acct-token: t1)
+		hname, vals := "x-acct-token", []string{"t1"}
+		if hn, ok := proto.KV(w, "hname"); ok {
+			hv, ok2 := proto.KV(w, "hvals")
+			if !ok2 {
+				panic("harness: acct needs hvals")
+			}
+			hname, vals = proto.Dec(hn), nil
+			for _, v := range strings.Split(hv, ",") {
+				vals = append(vals, proto.Dec(v))
+			}
+			d.watch[hname] = true
+		}
+		rr := []any{}
+		for j, v := range vals {
+			acc := fmt.Sprintf("acc%d_%d", len(d.pols), j)
+			d.accounts[acc] = map[string]any{"tokens": []any{map[string]any{"header": map[string]any{"name": hname, "value": v}}}}
+			rr = append(rr, acc)
+		}
+		cfg = map[string]any{"account_orchestration": map[string]any{"round_robin": rr}}
 	case "fixed":
 		cfg = map[string]any{"fixed_response": map[string]any{"status_code": kvI(w, "status")}}
 	case "cache":
@@ -236,12 +266,13 @@ func (d *dispatchState) req(w []string) string {
 	if err != nil {
 		return "err:dispatch"
 	}
-	return fmtDispatch(out)
+	return fmtDispatch(out, d.watch)
 }
 
-func fmtDispatch(as spoe.Actions) string {
+func fmtDispatch(as spoe.Actions, watch map[string]bool) string {
 	early := false
 	status, body := "-", ""
+	var outs []string
 	for _, a := range as {
 		switch a.Name {
 		case "return_early_response":
@@ -257,10 +288,21 @@ func fmtDispatch(as spoe.Actions) string {
 			default:
 				body = fmt.Sprint(v)
 			}
+		case "request_headers":
+			// the headers the gateway puts on the forwarded request ("name:value\n"...)
+			for _, line := range strings.Split(fmt.Sprint(a.Value), "\n") {
+				if i := strings.Index(line, ":"); i > 0 && watch[line[:i]] {
+					outs = append(outs, proto.Enc(line[:i])+"&"+proto.Enc(line[i+1:]))
+				}
+			}
 		}
 	}
 	if !early {
-		return "pass"
+		if len(outs) == 0 {
+			return "pass"
+		}
+		sort.Strings(outs)
+		return "pass out=" + strings.Join(outs, ";")
 	}
 	return "early " + status + " body=" + proto.Enc(body)
 }
